@@ -188,38 +188,114 @@ Qed.
 
 Definition no_curly (l : list token) : Prop := Forall (fun t => is_curly t = false) l.
 
-Lemma decl_step_csb fxp a i t : is_curly t = false -> d_csb a = false -> d_csb (decl_step fxp a i t) = false.
-Proof.
-  intros Hc Ha. unfold decl_step.
-  destruct (_ && is_literal t s_bang); [exact Ha|].
-  destruct (_ && _); [exact Ha|].
-  destruct t; try exact Ha; try discriminate.
-Qed.
-
-Lemma decl_loop_csb fxp : forall l a i, no_curly l -> d_csb a = false -> d_csb (decl_loop fxp a i l) = false.
-Proof.
-  induction l as [|t l IH]; intros a i Hn Ha; [exact Ha|].
-  inversion Hn; subst. simpl. apply IH; [assumption|]. apply decl_step_csb; assumption.
-Qed.
-
 Lemma no_curly_drop l : no_curly l -> no_curly (drop_wsc l).
 Proof. induction 1; simpl; [constructor|]. destruct (wsc x); [assumption|constructor; assumption]. Qed.
 
+(* ------------------------------------------------------------------ the {} rule: code (count) = draft (a block and something else) *)
+Lemma is_curly_spec t : is_curly t = is_curly_block t.
+Proof. destruct t; reflexivity. Qed.
+
+Lemma curly_not_wsc t : is_curly_block t = true -> wsc t = false.
+Proof. destruct t; try discriminate; reflexivity. Qed.
+
+Lemma significant_count_cons t l :
+  significant_count (t :: l) = ((if wsc t then 0 else 1) + significant_count l)%nat.
+Proof. unfold significant_count. simpl. rewrite wsc_spec. destruct (wsc t); reflexivity. Qed.
+
+Lemma significant_pos l : (0 <? significant_count l)%nat = negb (forallb wsc l).
+Proof.
+  induction l as [|t l IH]; [reflexivity|]. rewrite significant_count_cons. cbn [forallb].
+  destruct (wsc t); cbn [andb Nat.add]; [exact IH|]. reflexivity.
+Qed.
+
+Lemma remove_first_block_none l : remove_first_block l = None -> existsb is_curly l = false.
+Proof.
+  induction l as [|t l IH]; [reflexivity|]. cbn [remove_first_block existsb]. change (is_curly t) with (is_curly_block t).
+  destruct (is_curly_block t); [discriminate|]. destruct (remove_first_block l); [discriminate|].
+  intros _. apply IH. reflexivity.
+Qed.
+
+Lemma remove_first_block_some l : forall o, remove_first_block l = Some o ->
+  existsb is_curly l = true /\ significant_count l = S (significant_count o).
+Proof.
+  induction l as [|t l IH]; intros o; [discriminate|]. cbn [remove_first_block existsb]. change (is_curly t) with (is_curly_block t).
+  destruct (is_curly_block t) eqn:Ec.
+  - intros H; inversion H; subst. split; [reflexivity|]. rewrite significant_count_cons, (curly_not_wsc _ Ec). reflexivity.
+  - destruct (remove_first_block l) as [o'|]; [|discriminate]. intros H; inversion H; subst.
+    destruct (IH o' eq_refl) as [H1 H2]. split; [exact H1|].
+    rewrite !significant_count_cons, H2. destruct (wsc t); reflexivity.
+Qed.
+
+Lemma block_rule_spec value : block_rule value = block_not_alone value.
+Proof.
+  unfold block_rule, block_not_alone. destruct (remove_first_block value) as [o|] eqn:E.
+  - destruct (remove_first_block_some _ _ E) as [H1 H2]. rewrite H1, H2. cbn [andb].
+    rewrite <- significant_pos. reflexivity.
+  - rewrite (remove_first_block_none _ E). reflexivity.
+Qed.
+
+(* declaration_draft_spec: name, colon, value, !important of Level 3 5.4.6 and the {} rule
+   of the css-syntax draft, for EVERY token list (no hypothesis) *)
+Theorem declaration_draft_spec : forall first rest nested,
+  match spec_declaration_draft first rest with
+  | DOk n v i => exists p, parse_declaration true first rest nested = CDeclaration p n v i
+  | DError => exists p, parse_declaration true first rest nested = CParseError p errInvalid
+  end.
+Proof.
+  intros first rest nested. unfold spec_declaration_draft, spec_declaration, parse_declaration.
+  destruct first; try (eexists; reflexivity).
+  rewrite next_significant_spec.
+  destruct (drop_wsc rest) as [|c value]; [eexists; reflexivity|].
+  rewrite is_colon_spec. destruct (delim_is c 58); cbn [negb]; [|eexists; reflexivity].
+  pose proof (important_spec value) as Hi. cbv zeta in Hi.
+  destruct (spec_important value) as [v0 imp0]. inversion Hi as [[Hv Himp]]. rewrite Hv.
+  rewrite block_rule_spec. destruct (block_not_alone v0); eexists; reflexivity.
+Qed.
+
+(* the code as found accepted a token FOLLOWING the block ("a: {} x") and did not count
+   a "!" met before the block ("a: ! {}") *)
+Lemma declaration_block_rule_orig_deviates :
+  let p := mkPos 0 0 in
+  let a := TIdent p [97] in
+  let v1 := [TLiteral p [58]; TCurly p []; TIdent p [120]] in
+  let v2 := [TLiteral p [58]; TLiteral p [33]; TCurly p []] in
+  spec_declaration_draft a v1 = DError /\ spec_declaration_draft a v2 = DError /\
+  (exists n v i, parse_declaration false a v1 false = CDeclaration p n v i) /\
+  (exists n v i, parse_declaration false a v2 false = CDeclaration p n v i).
+Proof. vm_compute. repeat split; do 3 eexists; reflexivity. Qed.
+
+Lemma no_curly_remove l : no_curly l -> remove_first_block l = None.
+Proof.
+  induction 1 as [|t l Ht _ IH]; [reflexivity|]. cbn [remove_first_block].
+  change (is_curly_block t) with (is_curly t). rewrite Ht, IH. reflexivity.
+Qed.
+
+Lemma no_curly_firstn n l : no_curly l -> no_curly (firstn n l).
+Proof. intros H. revert n. induction H as [|t l Ht Hl IH]; intros [|n]; simpl; try constructor; auto. apply IH. Qed.
+
+Lemma spec_important_no_curly l : no_curly l -> no_curly (fst (spec_important l)).
+Proof.
+  intros H. pose proof (important_spec l) as Hi. cbv zeta in Hi. rewrite <- Hi. cbn [fst].
+  destruct (d_state _); try exact H. apply no_curly_firstn. exact H.
+Qed.
+
 (* declaration_spec: for values without a top-level {} block (all of CSS Syntax
-   Level 3; the {} rule of the css-syntax draft is an extension of the implementation) *)
+   Level 3) the {} rule never applies: exactly 5.4.6 *)
 Theorem declaration_spec : forall first rest nested, no_curly rest ->
   match spec_declaration first rest with
   | DOk n v i => exists p, parse_declaration true first rest nested = CDeclaration p n v i
   | DError => exists p, parse_declaration true first rest nested = CParseError p errInvalid
   end.
 Proof.
-  intros first rest nested Hn. unfold spec_declaration, parse_declaration.
-  destruct first; try (eexists; reflexivity).
-  rewrite next_significant_spec. pose proof (no_curly_drop _ Hn) as Hn'.
-  destruct (drop_wsc rest) as [|c value]; [eexists; reflexivity|].
-  rewrite is_colon_spec. destruct (delim_is c 58); cbn [negb]; [|eexists; reflexivity].
-  inversion Hn'; subst.
-  rewrite (decl_loop_csb true value _ 0%nat) by (assumption || reflexivity). cbn [andb].
-  pose proof (important_spec value) as Hi. cbv zeta in Hi.
-  destruct (spec_important value) as [v0 imp0]. inversion Hi; subst. eexists; reflexivity.
+  intros first rest nested Hn. pose proof (declaration_draft_spec first rest nested) as H.
+  unfold spec_declaration_draft in H.
+  destruct (spec_declaration first rest) as [n v i|] eqn:E; [|exact H].
+  assert (Hv : block_not_alone v = false).
+  { unfold block_not_alone. rewrite no_curly_remove; [reflexivity|].
+    unfold spec_declaration in E. destruct first; try discriminate.
+    pose proof (no_curly_drop _ Hn) as Hn'. destruct (drop_wsc rest) as [|c value]; [discriminate|].
+    destruct (delim_is c 58); [|discriminate]. inversion Hn'; subst.
+    pose proof (spec_important_no_curly value) as Hs. destruct (spec_important value) as [vv ii].
+    inversion E; subst. apply Hs. assumption. }
+  rewrite Hv in H. exact H.
 Qed.
